@@ -354,7 +354,7 @@ void AsyncSim::ha_final_checks() {
 				// PDU it cannot accept, or a failed transfer: any such cause before this transfer completed may have failed it already
 				for (auto &g : frames) if (g.ep == f.ep && &g != &f && g.arrive_seq && g.arrive_seq < x.done_seq) {
 					bool plain_conf = !g.bad && g.info.has_conf && !g.info.has_resp && !g.info.has_error;
-					bool fits = g.clean_resp;
+					bool fits = g.clean_resp && !g.bad;   // (bad: also a PDU the client cannot even parse, e.g. an imprint of the wrong length)
 					if (fits && svc_ext) {
 						fits = false;
 						for (auto &rq : eps[(size_t)g.ep].request_log) if (rq.has_id && g.info.has_id && rq.id == g.info.id)
